@@ -141,6 +141,34 @@ def stage_pool(ctx):
             pmod.global_abort.clear()
 
 
+def stage_real_tasks(ctx):
+    """OperationalError at the k-th statement, for every k, of the real pull / check / delete / pre-pull-search tasks run
+    by the real Worker on a real index and real node directories"""
+    import env as envmod
+    import wharness
+    scenarios = [("pull", 0, "none", "ok"), ("pull", 1, "rsync-only", "ok"), ("pull", 1, "rsync-only", "fail-src"),
+                 ("pull", 2, "none", "ok"), ("check", 0, "none", "ok"), ("delete", 0, "none", "ok"), ("search", 0, "none", "ok")]
+    if not ctx.quick():
+        scenarios += [("pull", v, r, m) for v in range(3, 6) for (r, m) in (("none", "ok"), ("rsync-only", "partial"), ("rsync-only", "fail-mkstemp"))]
+    with envmod.Env() as e:
+        for kind, variant, route, mode in scenarios:
+            ref = None
+            for res in wharness.fault_sweep(e, kind, variant=variant, pathdir=route, mode=mode):
+                if res["k"] < 0:
+                    ref = res
+                    ctx.coverage.setdefault("statements_per_task", {})[f"{kind}/{variant}/{route}/{mode}"] = res["statements"]
+                    continue
+                ctx.count(f"realtask:{kind}:fault")
+                ctx.case(("realtask", kind, variant, route, mode, res["k"]), nontrivial=True,
+                         sample={"task": kind, "route": route, "tool_mode": mode, "fault_at_statement": res["k"],
+                                 "of": res["statements"], "worker_exit": res["exit_code"], "reserved_after": res["reserved"],
+                                 "request_rows_after": res["after"]["req"]} if kind == "pull" and res["k"] == 3 and len(ctx.samples) < 6 else None)
+                for p in wharness.judge_fault(res, ref):
+                    ctx.violation(f"realtask:{kind}:{p[:30]}", f"{kind} task, DB error at statement {res['k']} of {res['statements']}: {p}",
+                                  {"kind": "fault", "task": kind, "variant": variant, "route": route, "mode": mode, "k": res["k"],
+                                   "after": res["after"], "before": res["before"]})
+
+
 def stage_retry(ctx):
     """the real RetryOperationalError mixin over a scripted base with the peewee-3 signature"""
     import peewee as pw
@@ -206,6 +234,7 @@ def run(ctx):
     envmod.quiet_logging()
     stage_worker(ctx)
     stage_pool(ctx)
+    stage_real_tasks(ctx)
     stage_retry(ctx)
     ctx.assumptions.append("URL-configured databases cannot be opened with the installed peewee 4.5.1 (alpenhorn.db._connect raises "
                            "TypeError: finding F8, DESIGN §6); the retry mixin is therefore exercised over a scripted base class with the "
